@@ -26,7 +26,7 @@ func init() {
 		ghostAll = append(ghostAll, "G."+k)
 	}
 	wrG := []string{"G.wr_failed", "G.wr_offered", "G.wr_calls", "G.crc_hi", "G.crc_lo", "G.crc_src"}
-	rdG := []string{"G.rd_pos", "G.rd_left", "G.crc_hi", "G.crc_lo", "G.crc_src"}
+	rdG := []string{"G.rd_pos", "G.rd_left", "G.crc_hi", "G.crc_lo", "G.crc_src", "F.io.LimitedReader.N"}
 	natives = map[string]nativeFn{}
 	nativeMods = map[string][]string{}
 	reg := func(name string, mods []string, fn nativeFn) {
@@ -122,7 +122,10 @@ func init() {
 			e := f.e
 			dst, src := e.scalar(args[0]), e.scalar(args[1])
 			f.safetyOb("nopanic:nil", pc, fmt.Sprintf("(and (not (= %s 0)) (not (= %s 0)))", dst, src), in.Pos(), in)
-			f.writerPre(h, dst, pc, in)
+			discard := dst == q("gv.io.Discard")
+			if !discard {
+				f.writerPre(h, dst, pc, in)
+			}
 			f.implHavoc(h, "Read/1:2", args[1])
 			f.implHavoc(h, "Write/1:2", args[0])
 			rv := e.havocVal(nm, resT).(TupleV)
@@ -134,7 +137,9 @@ func init() {
 			}
 			// a successful Copy never returns EOF
 			e.assume(fmt.Sprintf("(=> (not (= %s 0)) (not (isEOF %s)))", er, er))
-			f.writerMany(h, dst, n, er)
+			if !discard {
+				f.writerMany(h, dst, n, er)
+			}
 			f.readerAdvance(h, src, n, pc)
 			f.setResult(in, rv)
 			return true
@@ -363,18 +368,69 @@ func init() {
 		return func(f *frame, in ssa.Instruction, callee *ssa.Function, args []Val, pc string, h *Heap, nm string, resT types.Type) bool {
 			e := f.e
 			c := in.(ssa.CallInstruction).Common()
-			// x is passed as interface{}: find the slice type behind it
+			// x is passed as interface{}: find the slice behind it
 			var st *types.Slice
+			var sv SliceV
 			if mi, ok := c.Args[0].(*ssa.MakeInterface); ok {
 				st, _ = under(mi.X.Type()).(*types.Slice)
+				sv, _ = f.get(mi.X).(SliceV)
 			}
 			if st == nil {
 				e.havocAll(h)
 				return true
 			}
-			for _, cs := range e.elemComps(st.Elem()) {
-				e.havocHeapComp(h, cs[0])
+			// the comparator is called with indices in range: its precondition must hold for all of them
+			if cv, ok := args[1].(ClosV); ok && cv.Fn != nil {
+				less := cv.Fn.(*ssa.Function)
+				if con := e.w.contractFor(less); con != nil && len(less.Params) == 2 {
+					e.n++
+					bi, bj := q(fmt.Sprintf("i?%d", e.n)), q(fmt.Sprintf("j?%d", e.n))
+					env := &Env{vars: map[string]TV{}, cells: map[string]bool{}, heap: h, old: h}
+					if less.Pkg != nil {
+						env.pkg = less.Pkg.Pkg
+					} else if less.Parent() != nil && less.Parent().Pkg != nil {
+						env.pkg = less.Parent().Pkg.Pkg
+					}
+					env.vars[less.Params[0].Name()] = TV{Sc{bi}, tInt}
+					env.vars[less.Params[1].Name()] = TV{Sc{bj}, tInt}
+					for k, fv := range less.FreeVars {
+						if k < len(cv.Binds) {
+							env.vars[fv.Name()] = TV{cv.Binds[k], fv.Type()}
+							if _, isP := fv.Type().(*types.Pointer); isP {
+								env.cells[fv.Name()] = true
+							}
+						}
+					}
+					for _, rq := range con.Requires {
+						t := e.evalBool(env, rq.Expr)
+						e.useQuant = true
+						e.ob(f, "pre", con.Key+" (for all indices in range): "+rq.label(), f.safety, pc,
+							fmt.Sprintf("(forall ((%s Int) (%s Int)) (=> (and (<= 0 %s) (< %s %s) (<= 0 %s) (< %s %s)) %s))", bi, bj, bi, bi, sv.L, bj, bj, sv.L, t), in.Pos())
+					}
+				} else {
+					e.unmod["comparator "+funcKey(less)]++
+				}
 			}
+			// afterwards the range holds a permutation of what it held: new[k] = old[perm(k)], perm onto the range
+			e.n++
+			perm := fmt.Sprintf("perm!%d", e.n)
+			inv := fmt.Sprintf("perminv!%d", e.n)
+			e.extraDecls = append(e.extraDecls, fmt.Sprintf("(declare-fun %s (Int) Int)", perm), fmt.Sprintf("(declare-fun %s (Int) Int)", inv))
+			e.useQuant = true
+			tok := q(fmt.Sprintf("sortfact!%d", e.n))
+			_ = tok
+			e.assume(fmt.Sprintf("(forall ((k Int)) (! (=> (and (<= 0 k) (< k %s)) (and (<= 0 (%s k)) (< (%s k) %s) (= (%s (%s k)) k))) :pattern ((%s k))))", sv.L, perm, perm, sv.L, inv, perm, perm))
+			e.assume(fmt.Sprintf("(forall ((k Int)) (! (=> (and (<= 0 k) (< k %s)) (and (<= 0 (%s k)) (< (%s k) %s) (= (%s (%s k)) k))) :pattern ((%s k))))", sv.L, inv, inv, sv.L, perm, inv, inv))
+			for _, cs := range e.elemComps(st.Elem()) {
+				name, so := cs[0], cs[1]
+				arr := e.comp(h, name, so, true)
+				na := e.fresh("Hsort."+name, fmt.Sprintf("(Array Int %s)", so))
+				oldRow := fmt.Sprintf("(select %s %s)", arr, sv.B)
+				e.assume(fmt.Sprintf("(forall ((k Int)) (! (=> (and (<= 0 k) (< k %s)) (= (select %s (+ %s k)) (select %s (+ %s (%s k))))) :pattern ((select %s (+ %s k)))))", sv.L, na, sv.O, oldRow, sv.O, perm, na, sv.O))
+				e.assume(fmt.Sprintf("(forall ((j Int)) (! (=> (or (< j %s) (>= j (+ %s %s))) (= (select %s j) (select %s j))) :pattern ((select %s j))))", sv.O, sv.O, sv.L, na, oldRow, na))
+				e.setComp(h, name, fmt.Sprintf("(store %s %s %s)", arr, sv.B, na))
+			}
+			e.sortFacts = append(e.sortFacts, sortFact{perm: perm, inv: inv, slice: sv, stable: stable, less: args[1], elem: st.Elem()})
 			return true
 		}
 	}
@@ -405,6 +461,13 @@ func init() {
 	regI("Write/1:2", wrG, func(f *frame, in ssa.Instruction, c *ssa.CallCommon, r string, args []Val, pc string, h *Heap, nm string, resT types.Type) bool {
 		e := f.e
 		s, _ := args[0].(SliceV)
+		if isHashType(c.Value.Type()) {
+			// hash.Hash: "It never returns an error" (documented); the hash absorbs exactly p
+			hi := e.ghost(h, "crc_hi")
+			e.setComp(h, "G.crc_hi", fmt.Sprintf("(store %s %s (+ (select %s %s) %s))", hi, r, hi, r, s.L))
+			f.setResult(in, TupleV{Sc{s.L}, Sc{"0"}})
+			return true
+		}
 		f.writerPre(h, r, pc, in)
 		rv := e.havocVal(nm, resT).(TupleV)
 		n, er := e.scalar(rv[0]), e.scalar(rv[1])
@@ -430,6 +493,9 @@ func init() {
 		rv := e.havocVal(nm, resT).(TupleV)
 		pos, er := e.scalar(rv[0]), e.scalar(rv[1])
 		e.assume(fmt.Sprintf("(=> (= %s 0) (>= %s 0))", er, pos))
+		// whence == io.SeekEnd: the result is size+offset with 0 <= size <= MaxInt64
+		off, wh := e.scalar(args[0]), e.scalar(args[1])
+		e.assume(fmt.Sprintf("(=> (and (= %s 0) (= %s 2)) (<= (- %s %s) 9223372036854775807))", er, wh, pos, off))
 		for _, g := range []string{"G.rd_pos", "G.rd_left"} {
 			e.havocHeapComp(h, g)
 		}
@@ -456,6 +522,11 @@ func init() {
 	regI("Reset/1:1", nil, simple(nil)) // ResettableReader.Reset(io.Reader) error
 	regI("Compressor/0:1", nil, simple(nil))
 	regI("Compression/0:1", nil, simple(nil))
+}
+
+func isHashType(t types.Type) bool {
+	n, ok := t.(*types.Named)
+	return ok && n.Obj().Pkg() != nil && n.Obj().Pkg().Path() == "hash"
 }
 
 func markNonNil(e *Engine, v Val) {
